@@ -91,7 +91,7 @@ fn main() {
         "C11" => c_writers::c11(tier),
         "C19" => c_writers::c19(tier),
         "C12" => c_configs::c12(tier),
-        "C17" => c_inputs::c17(tier),
+        "C17" => c_hist::c17(tier),
         other => {
             eprintln!("unknown property {}", other);
             2
